@@ -160,6 +160,13 @@ func VerifPools() (addrs []string, slave []bool) {
 	return
 }
 
+// VerifProxyAddrs lists (sorted) the addresses OnTicker draws the node to probe from.
+func VerifProxyAddrs() []string {
+	out := append([]string{}, EngineGlobal.ProxyAddrs...)
+	sort.Strings(out)
+	return out
+}
+
 // VerifAdoptTopology hands a CLUSTER NODES text to the topology code the way the refresh goroutine
 // does after framing a probe reply (updateClusterNodes), synchronously; the next ticker round then
 // applies it to the pools and the slot table.
